@@ -143,6 +143,12 @@ async def main():
                 obs["pending_stream"] = client.new_request_stream("p-1")
                 await client.send_json(create_request("tools/call", {"name": "slow"}, id="p-1"))
                 yield client.get_streams()
+        elif api == "client_object_versioned":
+            # the connection has settled on a revision (as a tracked handshake records it on the client)
+            from chuk_mcp.transports.stdio.stdio_client import StdioClient
+            async with StdioClient(params) as client:
+                client.set_protocol_version(case.get("version", "2025-06-18"))
+                yield client.get_streams()
         elif api == "transport":
             from chuk_mcp.transports.stdio.transport import StdioTransport
             async with StdioTransport(params) as tr:
